@@ -54,7 +54,7 @@ theorem psub_trans (H : Hier) (hok : H.ok = true) (a b c : Ty)
   have := trans_all (H.ok_sound hok) _ true true a b c (Nat.le_refl _) ⟨Or.inl rfl, Or.inl rfl⟩ wa wb wc h1 h2
   simpa [isProperSubtype_eq] using this
 
-/-- **not_sub_trans**: the full statement of transitivity is false of the transcribed rules (and of the code):
+/-- **not_sub_trans** (finding F-C08a): the full statement of transitivity is false of the transcribed rules (and of the code):
     `Type[A] <: Callable[[], A] <: builtins.function` but not `Type[A] <: builtins.function`. -/
 theorem not_sub_trans : ∃ (H : Hier) (a b c : Ty), H.ok = true ∧ a.wf H = true ∧ b.wf H = true ∧ c.wf H = true ∧
     isSubtype H a b = true ∧ isSubtype H b c = true ∧ isSubtype H a c = false :=
@@ -151,14 +151,14 @@ example :
     ∧ join demoH (.tuple [.inst 5]) (.tuple [.inst 4, .inst 5]) = .gen 1 (.inst 4)
     ∧ meet demoH (.union [.inst 4, .none]) (.union [.inst 5, .gen 6 (.inst 4)]) = .inst 5 := by decide
 
-/-- **not_meet_lower** (finding F25): without `latOk` the statement is false of the transcribed rules (and of
+/-- **not_meet_lower** (finding F-C08b): without `latOk` the statement is false of the transcribed rules (and of
     the code): for contravariant `Cn`, `meet(Cn[Callable[[], A]], Cn[Type[A]]) = Cn[Never]`, a subtype of neither. -/
 theorem not_meet_lower : ∃ (H : Hier) (s t : Ty), H.ok = true ∧ s.wf H = true ∧ t.wf H = true ∧
     s.noFunc H = true ∧ t.noFunc H = true ∧
     isSubtype H (meet H s t) s = false ∧ isSubtype H (meet H s t) t = false :=
   ⟨demoH, .gen 7 (.callable [] (.inst 4)), .gen 7 (.typeType (.inst 4)), by decide⟩
 
-/-- **not_join_upper**: the same cell breaks the join of callables whose parameters meet there:
+/-- **not_join_upper** (finding F-C08b, derived): the same cell breaks the join of callables whose parameters meet there:
     `join(Callable[[Cn[Callable[[], A]]], A], Callable[[Cn[Type[A]]], A])` has parameter `Cn[Never]`. -/
 theorem not_join_upper : ∃ (H : Hier) (s t : Ty), H.ok = true ∧ s.wf H = true ∧ t.wf H = true ∧
     s.noFunc H = true ∧ t.noFunc H = true ∧ isSubtype H s (join H s t) = false :=
